@@ -1,10 +1,14 @@
 #!/bin/bash
-# usage: runall.sh quick|thorough [ids...]
+# usage: runall.sh quick|thorough [ids...]     (RUNALL_TIMEOUT=<seconds> per check, default none)
 tier=${1:-quick}; shift
 ids=${@:-$(python3 -c "import json;print(' '.join(c['property_id'] for c in json.load(open('/verif/MANIFEST.json'))['checks']))")}
 for id in $ids; do
   s=$(date +%s)
-  out=$(/verif/check $id $tier 2>/tmp/runall.$id.err); rc=$?
+  if [ -n "$RUNALL_TIMEOUT" ]; then
+    out=$(timeout $RUNALL_TIMEOUT /verif/check $id $tier 2>/tmp/runall.$id.err); rc=$?
+  else
+    out=$(/verif/check $id $tier 2>/tmp/runall.$id.err); rc=$?
+  fi
   e=$(( $(date +%s) - s ))
   echo "== $id rc=$rc ${e}s :: $(echo "$out" | grep -c KNOWN-FINDING) known, $(echo "$out" | grep -c '^VIOLATION') violations"
   echo "$out" | grep -v KNOWN-FINDING | head -5
